@@ -277,6 +277,8 @@ func runC05(p *core.Program, r *core.Report) {
 	r.Rule("C05.fields", "each position carries the field the reference names", 9)
 	r.Rule("C05.countlink", "repetitions are driven by the count the reference expects", 9)
 	r.Rule("C05.frame", "makeData: Short(type)+body, then WriteHeader(10,0,pcode,Hash64Str(license in effect)) from a fresh option struct; WriteHeader = Byte Byte Long Long IntBytes(prev)", 6)
+	r.Rule("C05.unaltered", "a function that encodes packs it was handed (zip/composite record writers) does not change them around the encoding", 1)
+	encodesUnaltered(p, wire.NewExtractor(p), r, "C05.unaltered", []string{"lang/pack"})
 	r.Rule("C05.encodings", "variable-length decimal classes (tag k + k big-endian bytes, shortest class) and blob/text length classes (<=253 / 255+u16 / 254+i32) are the protocol's", 20)
 	r.Rule("C05.taghash", "a log-sink pack that changes its own tag map invalidates the cached tag hash on every path that changed it, and Write emits the hash in force after its lazy recomputation (the hash written in front of the tags is the hash of those tags)", 2)
 	r.Rule("C05.crc", "Hash64 is the table-driven CRC variant: init all-ones, step (acc>>8)^sext32(T[(acc^b)&0xff]), final complement; table = IEEE CRC-32", 259)
